@@ -1,6 +1,7 @@
 package main
 
 import (
+	"bytes"
 	"fmt"
 	"math/rand"
 	"os"
@@ -26,6 +27,7 @@ func runC12(c *Check, rng *rand.Rand) {
 	for _, mode := range modes {
 		c12mode(c, rng, mode)
 	}
+	c12volume(c, rng)
 	c12timeouts(c, rng)
 	// in-process: the same generator against the real decoder, by the million
 	// (one goroutine: the decoder is written for a single-threaded event loop and keeps global scratch state)
@@ -245,6 +247,88 @@ func shapeOfProtoErr(e string) string {
 		return strings.TrimSpace(e[:i])
 	}
 	return e
+}
+
+// c12volume: well-formed but extreme input - more requests for one node in a single
+// write than fit into one vectored write (1024 entries), and multi-key requests that
+// split into more than 1024 fragments for one node. The sender must get every reply
+// and other connections (also those talking to that node) must keep being served.
+func c12volume(c *Check, rng *rand.Rand) {
+	env, err := NewEnv(EnvOpt{Masters: 3})
+	must(err, "start env")
+	defer env.Close()
+	script := NewScript()
+	env.Cl.SetHandler(script.Handler)
+	counts := []int{1023, 1024, 1025, 1100, 2049, 3000}
+	if c.Thorough() {
+		counts = append(counts, 1500, 4097, 5000, 1026, 2048)
+	}
+	for ci, n := range counts {
+		for _, kind := range []string{"pipeline", "mget", "del", "mset"} {
+			if !env.P.Alive() {
+				c.Violate(Violation{Class: "proxy-died", Shape: "volume", Detail: env.P.PanicLine(), Witness: env.P.OutputTail(2000)})
+				return
+			}
+			if kind != "pipeline" && ci%2 == 1 && !c.Thorough() {
+				continue
+			}
+			node := env.T.Nodes[rng.Intn(3)]
+			lo, hi := node.Slots[0][0], node.Slots[0][1]
+			perm := rng.Perm(hi - lo + 1)
+			tok := newToken("vol")
+			var raw []byte
+			expect := 1
+			if kind == "pipeline" {
+				for i := 0; i < n; i++ {
+					raw = append(raw, Req("GET", Key(lo+perm[i%len(perm)], fmt.Sprintf("%s.%d", tok, i)))...)
+				}
+				expect = n
+			} else {
+				args := []string{strings.ToUpper(kind)}
+				for i := 0; i < n; i++ {
+					args = append(args, Key(lo+perm[i], fmt.Sprintf("%s.%d", tok, i)))
+					if kind == "mset" {
+						args = append(args, "v")
+					}
+				}
+				raw = Req(args...)
+			}
+			cl, err := env.Dial()
+			must(err, "dial")
+			cl.Send(raw)
+			ok := cl.WaitReplies(expect, 15*time.Second)
+			// another connection, with requests for the same node among them
+			w, err := env.Dial()
+			must(err, "dial")
+			wk := Key(lo+rng.Intn(hi-lo+1), newToken("volw"))
+			w.Send(append(Req("GET", wk), Req("PING")...))
+			wok := w.WaitReplies(2, 5*time.Second) && bytes.Equal(w.Snapshot().Replies[0].Val.Raw, BulkReply([]byte("v:"+wk)))
+			c.Eval(1)
+			c.Distinct(fmt.Sprintf("volume/%s/%d", kind, n))
+			shape := fmt.Sprintf("volume/%s/%d-for-one-node", kind, n)
+			wit := map[string]interface{}{"kind": kind, "count": n, "node": node.Addr, "replies": cl.NReplies(), "expected_replies": expect}
+			switch {
+			case !env.P.Alive():
+				c.Violate(Violation{Class: "proxy-died", Shape: shape, Detail: env.P.PanicLine(), Witness: wit})
+				return
+			case !ok:
+				c.Violate(Violation{Class: "well-formed-input-not-answered", Shape: shape, Detail: fmt.Sprintf("%d of %d replies after 15 s for a well-formed %s of %d keys/requests, all for one node", cl.NReplies(), expect, kind, n), Witness: wit})
+			case !wok:
+				c.Violate(Violation{Class: "other-connection-disturbed", Shape: shape, Detail: "after it, another connection's request for the same node is not answered correctly", Witness: wit})
+			default:
+				c.Count("volume_cases_verified", 1)
+			}
+			if !ok || !wok {
+				cl.Close()
+				w.Close()
+				must(env.Restart(), "restart proxy")
+				env.Cl.SetHandler(script.Handler)
+				continue
+			}
+			cl.Close()
+			w.Close()
+		}
+	}
 }
 
 // c12witness runs a checked pipeline on a fresh connection; it returns false
